@@ -29,10 +29,22 @@ fn timestamp_all(dels: &mut [Del<i64, i64>]) {
 pub fn generate(opts: &Opts, sink: &mut CaseSink) {
     let mut rng = Rng::new(opts.seed);
     let n = (if opts.thorough { 4000 } else { 500 }) / opts.scale;
+    zip_merge_cases(&mut rng, sink, n);
+    generate_rest(opts, sink, rng, n);
+}
+
+/// only the zip / merge chains (re-evaluated by C05: per-round pairing, nothing carried over)
+pub fn generate_zip_merge(opts: &Opts, sink: &mut CaseSink) {
+    let mut rng = Rng::new(opts.seed ^ 0x9);
+    let n = (if opts.thorough { 4000 } else { 500 }) / opts.scale;
+    zip_merge_cases(&mut rng, sink, n);
+}
+
+fn zip_merge_cases(rng: &mut Rng, sink: &mut CaseSink, n: usize) {
     for i in 0..n {
         let (nl, nr) = (rng.range(1, 3) as usize, rng.range(1, 3) as usize);
         let rounds = rng.range(1, 3) as usize;
-        let mut dels = crate::props::c08::deliveries(&mut rng, nl, nr, rounds, 50);
+        let mut dels = crate::props::c08::deliveries(rng, nl, nr, rounds, 50);
         // distinct values: left 1000+i, right 5000+i
         let (mut a, mut b) = (1000, 5000);
         for d in dels.iter_mut() {
@@ -58,6 +70,9 @@ pub fn generate(opts: &Opts, sink: &mut CaseSink) {
                       json!({"kind": "merge", "left_replicas": nl, "right_replicas": nr, "deliveries": format!("{:?}", dels), "impl_output": format!("{:?}", out)}), np >= 2);
         }
     }
+}
+
+fn generate_rest(opts: &Opts, sink: &mut CaseSink, mut rng: Rng, n: usize) {
     // broadcast (All) and split (several downstream blocks)
     for i in 0..n {
         let broadcast = i % 2 == 0;
